@@ -406,6 +406,25 @@ func checkIterator(c *Check, pg *PG, lit *Term) {
 // then every delta entry if a delta exists, nothing else.
 func checkEntryList(c *Check, top *PG, scan *Instance, spg *PG, E string) {
 	where := c.P.pos(spg.G.Root.Decl.Pos())
+	if strings.HasPrefix(E, "?grown:") {
+		// the list is built in the scan function itself
+		var L *Var
+		for _, v := range spg.G.Vars {
+			if v.Obj != nil && v.Name == strings.TrimPrefix(E, "?grown:") {
+				if L != nil {
+					L = nil
+					break
+				}
+				L = v
+			}
+		}
+		if L == nil {
+			c.undecided("O-C10.6", "entries scanned", "cannot identify the list variable "+E+" in "+scan.Name, where)
+			return
+		}
+		entryListRules(c, spg, L, AnyOf(RangeNext(E), RangeDone(E)), "the scan loop")
+		return
+	}
 	idx := -1
 	for i := range spg.G.Params {
 		if E == fmt.Sprintf("p%d", i) {
@@ -454,6 +473,12 @@ func checkEntryList(c *Check, top *PG, scan *Instance, spg *PG, E string) {
 		c.undecided("O-C10.6", "entries scanned", fmt.Sprintf("the caller %s does not hand a local list variable to %s (%d call nodes)", caller.Name, scan.Name, len(callNodes)), c.P.pos(bpg.G.Root.Decl.Pos()))
 		return
 	}
+	entryListRules(c, bpg, L, isScanCall, "the call of the scan")
+}
+
+// entryListRules: the local list L of bpg holds every base entry, then every
+// delta entry if a delta exists, and nothing else, when the scan starts.
+func entryListRules(c *Check, bpg *PG, L *Var, start LP, startName string) {
 	var base, delta string
 	for _, s := range bpg.States {
 		for _, e := range s.Out {
@@ -507,10 +532,11 @@ func checkEntryList(c *Check, top *PG, scan *Instance, spg *PG, E string) {
 	c.perIteration(bpg, "O-C10.6", "every base entry is listed", "each base entry is appended to the list handed to the scan", base, add(base))
 	c.perIteration(bpg, "O-C10.6", "every delta entry is listed", "each delta entry is appended to the list handed to the scan", delta, add(delta))
 	c.mustPass(bpg, "O-C10.6", "base entries before delta entries", "the first delta entry", edgeTargets(bpg, RangeNext(delta)), RangeDone(base))
-	scanCalls := edgeTargets(bpg, isScanCall)
-	c.mustPass(bpg, "O-C10.6", "scan starts only after the base entries were listed", "the call of the scan", scanCalls, RangeDone(base))
-	c.mustPass(bpg, "O-C10.6", "scan starts only after the delta entries were listed", "the call of the scan", scanCalls, AnyOf(A("+IsNil("+bundle+".DeltaCRL)"), RangeDone(delta)))
+	scanCalls := edgeTargets(bpg, start)
+	c.mustPass(bpg, "O-C10.6", "scan starts only after the base entries were listed", startName, scanCalls, RangeDone(base))
+	c.mustPass(bpg, "O-C10.6", "scan starts only after the delta entries were listed", startName, scanCalls, AnyOf(A("+IsNil("+bundle+".DeltaCRL)"), RangeDone(delta)))
 	c.floor("entry list append sites", 2, len(distinctEdgeNodes(bpg, add(base)))+len(distinctEdgeNodes(bpg, add(delta))))
+	c.noPathFrom(bpg, "O-C10.6", "entry list complete before the scan", "no entry is added to the list once the scan has started", start, edgeSources(bpg, AnyOf(add(base), add(delta))), nil)
 }
 
 // emptyListTerm: nil, an empty composite literal or make with length 0.
